@@ -1078,7 +1078,7 @@ class Machine:
             p.mem[x.obj][x.off:x.off + n] = vy
             p.mem[y.obj][y.off:y.off + n] = vx
             return []
-        m = re.match(r'^(?:std::|core::)?ptr::swap::<(.*)>$', fname)
+        m = re.match(r'^(?:(?:std::|core::)?(?:ptr::swap|mem::swap|intrinsics::typed_swap_nonoverlapping)|typed_swap_nonoverlapping)::<(.*)>$', fname)
         if m:
             n = nleaves(m.group(1))
             x, y = a[0][0], a[1][0]
